@@ -6,6 +6,7 @@ import (
 	"strconv"
 	"strings"
 	"text/template"
+	"unicode"
 
 	"golang.org/x/text/cases"
 	"golang.org/x/text/language"
@@ -495,7 +496,14 @@ func expandInitilaisms(s string) string {
 func enumValueName(v interface{}) string {
 	switch x := v.(type) {
 	case string:
-		return FieldName(x)
+		// an enum value is any string: whatever cannot be part of an
+		// identifier separates words, like '-' and '_' do
+		return FieldName(strings.Map(func(r rune) rune {
+			if unicode.IsLetter(r) || unicode.IsDigit(r) {
+				return r
+			}
+			return '_'
+		}, x))
 	case bool:
 		if x {
 			return "True"
